@@ -17,7 +17,9 @@ type pollQueue struct {
 
 func newPollQueue() *pollQueue {
 	return &pollQueue{
-		ready: make(chan struct{}),
+		// Capacity 1: a signal sent while no poll is waiting in the select stays pending,
+		// so a packet added between a poll's emptiness check and its wait still wakes it.
+		ready: make(chan struct{}, 1),
 	}
 }
 
@@ -30,13 +32,24 @@ func (pq *pollQueue) poll(pollTimeout time.Duration) []*parser.Packet {
 		return packets
 	}
 
-	verifhook.Yield("pollqueue-window")
-	select {
-	case <-pq.ready:
-		packets = pq.get()
-	case <-time.After(pollTimeout):
+	timeout := time.NewTimer(pollTimeout)
+	defer timeout.Stop()
+
+	for {
+		verifhook.Yield("pollqueue-window")
+		select {
+		case <-pq.ready:
+			// The signal can be stale (the packets it announced were already taken).
+			// In that case keep waiting instead of answering with an empty payload.
+			packets = pq.get()
+			if len(packets) > 0 {
+				return packets
+			}
+		case <-timeout.C:
+			// Never answer empty while packets are queued.
+			return pq.get()
+		}
 	}
-	return packets
 }
 
 // add a packet to the queue and signal the other goroutine (if any).
